@@ -423,7 +423,10 @@ CHECKS["C10"] = dict(
           "only; exception in compiled or interpreted mode / NaN / d < 0 / modified argument / dependence on the call history = failure and is "
           "never credited to a known finding. NOT proved: float rounding (measured "
           "by (2)); for 6 functions universality over inputs comes from generation only. Known findings (open): F20, F21, FD4, FD5, FD8; FD7 "
-          "is fixed in /repo by 5e40c4a: no routing any more, its replay in corpus/C10 must pass."),
+          "is fixed in /repo by 5e40c4a: no routing any more, its replay in corpus/C10 must pass. The default arguments of all 34 functions (19 "
+          "values: epsilon, max_iter, distance_to_surface, signed) are re-read from the source on every run by a fail-closed ast reader and "
+          "compared with what the models assume; every pooled candidate (about 8000 per quick run) is executed in the tracing run and screened "
+          "by an untrusted float oracle, up to 16 suspicious candidates per function are always selected and then judged exactly."),
     design_ref="DESIGN.md section 5, C10",
     technique="Coq proof over R about a hand-written Gallina model + binary64 model/implementation correspondence (vm_compute) + Coq-proven result checker on generated inputs",
     note=TB + "; " + RA + "; harness/primlib.py (generators, witness construction, second-opinion exact Python oracle, which alone judges the non-sampled quick-tier cases)",
@@ -453,7 +456,9 @@ CHECKS["C11"] = dict(
           "r1 + r2 - |c1 - c2|; F23: class predicate 0 < |d x n|^2 < 1e-20 only). NOT proved: float rounding; "
           "optimality for the 6 functions above rests on generation, for the non-convex circle functions on an exhaustive fine search "
           "(untrusted oracle). Known findings (open): F10, F11, F22, F23; FD6 is fixed in /repo by 257a214: no routing any more, its replay in "
-          "corpus/C11 must pass."),
+          "corpus/C11 must pass. Case selection, the default-argument pin and the float-screened candidate pools are those of C10; a changed "
+          "default also starts a targeted search (600 cases) on the functions it names; the aniso stream draws the sizes of ellipsoids, boxes, "
+          "cylinders and rectangles independently over [0.01, 100]."),
     design_ref="DESIGN.md section 5, C11",
     technique="Coq proof of optimality over R about the Gallina model + Coq-proven separating-direction certificate checker on generated inputs + binary64 model/implementation correspondence",
     note=TB + "; " + RA + "; circle functions (non-convex): exhaustive fine search as untrusted oracle, labelled in the evidence; exact Python oracle alone for the non-sampled quick-tier cases",
